@@ -63,6 +63,12 @@ var oracles = map[string][]*oracle{}
 
 func registerOracle(o *oracle) { oracles[o.prop] = append(oracles[o.prop], o) }
 
+// A replayer re-executes the input of a recorded oracle failure on the real
+// code and reports (text, whether a failure with the same signature recurs).
+var replayers = map[string]func(f oracleFailure) (string, bool){}
+
+func registerReplayer(prop string, fn func(f oracleFailure) (string, bool)) { replayers[prop] = fn }
+
 // runGuarded runs a case with panic capture and a watchdog.
 func runGuarded(f *family, c *sx, timeout time.Duration) string {
 	done := make(chan string, 1)
